@@ -78,17 +78,14 @@ Theorem C04_implicit_null_dropped :
 Proof. exact (@merge2_implicit_null_dropped). Qed.
 Print Assumptions C04_implicit_null_dropped.
 
-(* Idempotence. FULL statement: merge2 p (merge2 p t) = merge2 p t for patches whose directives address
-   content present in the target. It is FALSE for the code as it is (finding
-   C04/idempotent/list-directive-copied-when-target-list-absent): a list-level "- $patch: delete" removes the
-   list; applied again, the directive element itself is copied into the document.
-   (The general idempotence proof on the atomic fragment is not done; the law is evaluated on the
-   implementation by the oracle of harness/c04laws.go on every generated in-domain case.) *)
-Theorem C04_idempotent_refuted :
-  exists p t r1 r2,
-    kmerge p t = Ok (Some r1) /\ kmerge p r1 = Ok (Some r2) /\ node_eqb r1 r2 = false.
-Proof. exact idempotent_refuted. Qed.
-Print Assumptions C04_idempotent_refuted.
+(* Idempotence. The former refutation (a list-level "- $patch: delete" copied into the document on the second
+   application; finding C04/idempotent/list-directive-copied-when-target-list-absent) is FIXED in /repo
+   (Merger.VisitList processes the directive when Dest is missing): the witness is now idempotent. *)
+Theorem C04_idempotent_list_directive :
+  exists r1, kmerge idem_patch idem_target = Ok (Some r1) /\ kmerge idem_patch r1 = Ok (Some r1) /\
+             r1 = pod [("x"%string, Scalar TInt SPlain "1")].
+Proof. exact list_directive_idempotent. Qed.
+Print Assumptions C04_idempotent_list_directive.
 
 (* PROVED PART of idempotence (partial): on kinds whose lists are atomic (no merge strategy in [sch], inference
    off), for patch and target that are mappings, have pairwise different keys in every mapping reached through
@@ -100,7 +97,7 @@ Print Assumptions C04_idempotent_refuted.
    kind errors (the first application must succeed). The fragment is the boolean [idem_fragment];
    [idem_example] (Yaml/Merge2Idem.v) is a non-trivial instance.
    MISSING w.r.t. the full statement: "$patch: replace" / "$patch: merge" at mapping level and keyed lists
-   (where it is false for list-level directives, see C04_idempotent_refuted). *)
+   (list-level directives on an absent list: fixed, see C04_idempotent_list_directive). *)
 Theorem C04_idempotent_partial :
   forall (Sc : Type) (sch : schema Sc) (opts : wopts) (nonstr : string -> bool),
     atomic_lists sch opts ->
